@@ -12,7 +12,7 @@ enum OpKind : uint8_t
     // vector life cycle / mutators (a[0] = slot)
     O_NEW,  // new(t,n,bunits,f0,f1,arena)
     O_DEF,  // def(t)
-    O_EB,   // eb(t,c0,c1)
+    O_EB,   // eb(t,c0,c1,c2)
     O_PB,   // pb(t)
     O_ER1,  // er(t,i)
     O_ER2,  // err(t,i,j)
@@ -52,13 +52,16 @@ enum OpKind : uint8_t
     // environment (C17): the k-th allocation of the NEXT operation fails (only in front of operations that promise to
     // leave everything unchanged on failure: reserve, copy construction, construction); exploration goes on afterwards
     O_FAIL,  // fail(k)
+    // macro operation of the "wide" runs: emplace_back until the vector is full (or the payload budget is used up), the
+    // span lengths cycling through 0..cmax starting at `phase`
+    O_FILL,  // fill(t,phase)
     O_KINDS
 };
 
 inline const char* const OP_NAMES[O_KINDS] = {"new", "def",  "eb",   "pb",   "er",   "err", "cl",  "rs",  "cc",  "ca",   "mc",   "ma",
                                               "sw",  "des",  "tcpy", "tcpa", "tswp", "tcmp", "rar", "rsw", "rot", "rev",  "swr",  "wp",
-                                              "xr",  "xcc",  "xmc",  "xca",  "xma",  "xsw", "xar", "rax", "xmut", "vmut", "xdes", "fail"};
-inline const int OP_ARITY[O_KINDS] = {6, 1, 3, 1, 2, 3, 1, 4, 2, 2, 2, 2, 2, 1, 1, 2, 2, 1, 4, 4, 4, 3, 4, 3, 5, 3, 3, 2, 2, 2, 4, 4, 1, 2, 1, 1};
+                                              "xr",  "xcc",  "xmc",  "xca",  "xma",  "xsw", "xar", "rax", "xmut", "vmut", "xdes", "fail", "fill"};
+inline const int OP_ARITY[O_KINDS] = {6, 1, 4, 1, 2, 3, 1, 4, 2, 2, 2, 2, 2, 1, 1, 2, 2, 1, 4, 4, 4, 3, 4, 3, 5, 3, 3, 2, 2, 2, 4, 4, 1, 2, 1, 1, 2};
 
 struct Op
 {
